@@ -281,6 +281,13 @@ func c10Extensions(t *core.Tape, w *world.World) []struct {
 		{"tcb-cpusvn-15", tcbWith(repl(17, seq(oid(2, 18), m(make([]byte, 15))))...)},
 		{"tcb-cpusvn-integer", tcbWith(repl(17, seq(oid(2, 18), m(9)))...)},
 		{"tcb-repeated-component", tcbWith(repl(4, full[3])...)},
+		{"tcb-oid-arc-0", tcbWith(repl(2, seq(oid(2, 0), m(5)))...)},
+		{"tcb-oid-arc-19", tcbWith(repl(2, seq(oid(2, 19), m(5)))...)},
+		{"tcb-oid-arc-255", tcbWith(repl(2, seq(oid(2, 255), m(5)))...)},
+		{"tcb-oid-arc-huge", tcbWith(repl(2, seq(oid(2, 2147483647), m(5)))...)},
+		{"tcb-oid-shorter", tcbWith(repl(2, seq(oid(2), m(5)))...)},
+		{"tcb-oid-longer", tcbWith(repl(2, seq(oid(2, 3, 1), m(5)))...)},
+		{"tcb-oid-other-tree", tcbWith(repl(2, seq(m(asn1.ObjectIdentifier{2, 5, 4, 3}), m(5)))...)},
 		{"tcb-element-not-sequence", tcbWith(repl(0, m(3))...)},
 		{"tcb-element-empty", tcbWith(repl(0, seq())...)},
 		{"tcb-element-extra-field", tcbWith(repl(0, seq(oid(2, 1), m(1), m(2)))...)},
